@@ -441,6 +441,14 @@ func ruleSrt3(c *Ctx) {
 // order inside the helper is checked in the same way.
 func stageOrder(c *Ctx, fn *ssa.Function, stages [][]string) {
 	private := privateHelpersOf(c.P, fn, 2)
+	// a thin wrapper (`func Select(…) { return selectQuery(…, false) }`) runs its stages in the function it
+	// delegates to, whoever else calls that function: the order in there is the order of the wrapper
+	for d := thinDelegate(fn); d != nil && !private[d] && d != fn; d = thinDelegate(d) {
+		private[d] = true
+		for h := range privateHelpersOf(c.P, d, 2) {
+			private[h] = true
+		}
+	}
 	type site struct {
 		stages map[int]bool
 		in     ssa.CallInstruction
@@ -531,6 +539,54 @@ func stageOrder(c *Ctx, fn *ssa.Function, stages [][]string) {
 			c.Ok(key, c.FnPos(fn), "no path from the later stage back to the earlier one")
 		}
 	}
+}
+
+// thinDelegate returns g when fn does nothing but hand its work to g: the body of fn contains exactly one call, a
+// static call of a function of the module that has a body, and every return of fn returns the results of that call
+// (or constants). nil otherwise.
+func thinDelegate(fn *ssa.Function) *ssa.Function {
+	if fn == nil || fn.Blocks == nil {
+		return nil
+	}
+	var only *ssa.Call
+	for _, b := range fn.Blocks {
+		for _, in := range b.Instrs {
+			switch x := in.(type) {
+			case *ssa.Call:
+				if only != nil {
+					return nil
+				}
+				only = x
+			case *ssa.Go, *ssa.Defer, *ssa.MakeClosure, *ssa.Store, *ssa.MapUpdate, *ssa.Send:
+				return nil
+			}
+		}
+	}
+	if only == nil {
+		return nil
+	}
+	g := core.StaticCallee(only)
+	if g == nil || g.Blocks == nil || !inModule(g) {
+		return nil
+	}
+	for _, r := range core.Returns(fn) {
+		for _, res := range r.Results {
+			switch x := res.(type) {
+			case *ssa.Const:
+			case *ssa.Call:
+				if x != only {
+					return nil
+				}
+			case *ssa.Extract:
+				if x.Tuple != ssa.Value(only) {
+					return nil
+				}
+			default:
+				return nil
+			}
+		}
+	}
+	return g
 }
 
 func short2(n string) string {
